@@ -65,14 +65,22 @@ func scenario(p params, bounds []int) *vexp.Scenario {
 		Bounds: bounds,
 		Setup:  func(x *vexp.X) { vsys.CoarseSetupSends() },
 		Body: func(x *vexp.X) {
-			w := vsys.NewWorld(x)
+			var sysOpts []vivid.ActorSystemOption
+			if p.fails == "on-child-death" {
+				// whatever the killed actor's handler does while it is stopping, the system's strategy (Restart) must not bring it back
+				sysOpts = append(sysOpts, vivid.WithActorSystemSupervisionStrategy(vivid.OneForOneStrategy(vivid.SupervisionStrategyDecisionMakerFN(
+					func(vivid.SupervisionContext) (vivid.SupervisionDecision, string) {
+						return vivid.SupervisionDecisionRestart, "scripted"
+					}))))
+			}
+			w := vsys.NewWorld(x, sysOpts...)
 			w.Quiet = true
 			w.Start()
 			nodes := shapes[p.shape]
 			scripts := map[string]*vsys.Script{}
 			respawned := 0
 			failer, released := "", false
-			if p.fails != "" {
+			if p.fails == "while-draining" {
 				for _, n := range nodes {
 					if parentOf(n) == p.target {
 						failer = n
@@ -101,6 +109,16 @@ func scenario(p params, bounds []int) *vexp.Scenario {
 				if p.respawn == "onkill-spawn" && n == p.target {
 					s.OnKill = func(a *vsys.Act, ctx vivid.ActorContext, m *vivid.OnKill) {
 						a.SpawnChild(ctx, &vsys.Script{Name: "late"})
+					}
+				}
+				if p.fails == "on-child-death" && n == p.target {
+					// the handler of the killed actor panics on the termination notice of the first of its children to die
+					panicked := false
+					s.OnKilled = func(a *vsys.Act, ctx vivid.ActorContext, m *vivid.OnKilled) {
+						if !panicked && parentOf(m.Ref.GetPath()) == p.target {
+							panicked = true
+							panic("scripted panic on a child's termination notice while stopping")
+						}
 					}
 				}
 				if n == failer {
@@ -507,6 +525,12 @@ func build(tier string) []*vexp.Scenario {
 		}
 	}
 	out = append(out, scenario(params{shape: "chain3", target: "/x/y", poison: true, extra: "none", watch: "none", respawn: "none", fails: "while-draining"}, bounds))
+	// the killed actor itself panics on the termination notice of the first of its (two or more) children to die; the strategy says Restart
+	for _, sh := range []string{"fan", "mixed"} {
+		for _, poison := range []bool{false, true} {
+			out = append(out, scenario(params{shape: sh, target: "/x", poison: poison, extra: "none", watch: "none", respawn: "none", fails: "on-child-death"}, bounds))
+		}
+	}
 	// a spawn racing the kill of its parent (here: the root, through System.Stop), message level and inside package actor
 	for _, sh := range []string{"chain3", "mixed"} {
 		q := params{shape: sh, target: shapes[sh][len(shapes[sh])-1], extra: "none", watch: "none", respawn: "late-spawn-during-stop"}
